@@ -260,6 +260,23 @@ def t2_d1_readers(ctx):
                     ok, why = False, '_get_part returns %s, not storage[sub-index]' % show(rv)[:60]
         ctx.check(ok, 'C01.D1', gp, cls.name, '%s: part_bounds describe exactly the storage that _get_part indexes with (part, sub-index)' % cls.name,
                   '%s: %s' % (cls.name, why or 'part_bounds / _get_part not recognised'))
+        # every file of a multi-file recording is mapped with the SAME sample type, channel count, header offset and mode
+        maps = []
+        for val, st in normal:
+            for k_, v_ in st.heap.items():
+                for x in subterms(v_):
+                    if is_t(x) and x[1] == 'call' and x[2] == '_memmap_flat':
+                        maps.append(x)
+        if maps:
+            bad = None
+            for mp in maps:
+                kws = {a[2]: a[3] for a in mp[4:] if is_t(a) and a[1] == 'kw'}
+                for key in ('dtype', 'n_channels', 'offset', 'mode'):
+                    if key in init.params and kws.get(key) != T('param', key):
+                        bad = (key, kws.get(key))
+            ctx.check(bad is None, 'C01.D1', init, cls.name + ' file geometry', '%s: every file is mapped with the constructor\'s dtype, n_channels, offset and mode' % cls.name,
+                      '%s: a file of the recording is mapped with %s = %s instead of the constructor argument: the files of one recording share one layout '
+                      '(header offset, sample type, channel count)' % (cls.name, bad[0] if bad else '', show(bad[1]) if bad else ''))
     # _get_part_bounds: [0] + cumulative first-axis sizes in order
     pb = repo.func(TR, '_get_part_bounds')
     r = [x for x in pb.returns() if x.value is not None]
